@@ -133,6 +133,13 @@ def correspondence(ctx):
                          tol=1e-13, inputs=dict(v=v, centers=cs))
             else:
                 v = list(rng.normal(size=3) * 5)
+                # exact zeros in some (not all) components are ordinary rotations / translations
+                if rng.random() < 0.5:
+                    z = rng.integers(0, 2, size=3).astype(bool)
+                    v = [0.0 if zz else vv for zz, vv in zip(z, v)]
+                if rng.random() < 0.5:
+                    z = rng.integers(0, 2, size=3).astype(bool)
+                    a = [0.0 if zz else aa for zz, aa in zip(z, a)]
                 ctx.corr("RigidCluster.scatterers", "rigid " + fl(a) + " " + fl(v) + " " + fl(flat),
                          impl_call(lambda: np.array([s.center for s in RigidCluster(
                              Spheres([Sphere(n=1.5, r=0.1, center=c) for c in cs]), translation=v, rotation=a).scatterers]).ravel()),
@@ -226,6 +233,25 @@ def search(ctx):
         if not (np.abs(d0 - d1).max() <= 1e-11):
             ctx.violation("C19:isometry", "rotate_points changes mutual distances",
                           dict(kind="isometry", angles=ang, points=pts.tolist()))
+        # --- rigid cluster: members at com + R (c - com) + t, for any rotation / translation triple (zeros in some components included)
+        try:
+            mr = int(rng.integers(1, 6))
+            cr = rng.normal(size=(mr, 3)) * 3
+            zr, zt = rng.integers(0, 2, size=3).astype(bool), rng.integers(0, 2, size=3).astype(bool)
+            rot_r = [0.0 if (zz and i % 2 == 0) else float(aa) for zz, aa in zip(zr, ang)]
+            tr_r = [0.0 if (zz and i % 3 != 2) else float(tt) for zz, tt in zip(zt, rng.normal(size=3) * 4)]
+            ctx.tried("rigid-cluster", (mr, tuple(np.round(rot_r, 4)), tuple(np.round(tr_r, 4))))
+            rc = RigidCluster(Spheres([Sphere(n=1.5, r=0.1, center=c) for c in cr]), translation=tuple(tr_r), rotation=tuple(rot_r))
+            got = np.array([s.center for s in rc.scatterers])
+            Rr = Rz(math.cos(rot_r[2]), math.sin(rot_r[2])) @ Ry(math.cos(rot_r[1]), math.sin(rot_r[1])) @ Rz(math.cos(rot_r[0]), math.sin(rot_r[0]))
+            com = cr.mean(axis=0)
+            want = (cr - com) @ Rr.T + com + np.array(tr_r)
+            if got.shape != want.shape or not (np.abs(got - want).max() <= 1e-11 * (1 + np.abs(want).max())):
+                ctx.violation("C19:rigid-cluster", "RigidCluster(rotation=%r, translation=%r): members are not at com + R (c - com) + t (max dev %.3g)" % (
+                    tuple(np.round(rot_r, 4)), tuple(np.round(tr_r, 4)), float(np.abs(got - want).max()) if got.shape == want.shape else float('nan')),
+                    dict(kind="rigid-cluster", rotation=rot_r, translation=tr_r, centers=cr.tolist()))
+        except Exception as ex:
+            ctx.violation("C19:rigid-cluster-raises:%s" % type(ex).__name__, "RigidCluster raised %r" % (ex,), dict(kind="rigid-cluster"))
         # --- composites
         m = int(rng.integers(1, 7))
         cs = rng.normal(size=(m, 3)) * 4
